@@ -50,6 +50,21 @@ Theorem C15_framing_chunk_independent : forall rest c d, closed c = false -> byt
 Proof. exact chunking_nonempty. Qed.
 Print Assumptions C15_framing_chunk_independent.
 
+(* ... and since a close() is always the last thing a data_received call does (next theorem), the complete
+   outputs are the same for every segmentation *)
+Theorem C15_framing_chunk_independent_exact : forall rest c d, closed c = false -> bytes_ok (spool c) = true ->
+  bytes_ok d = true -> Forall (fun x => bytes_ok x = true) rest ->
+  snd (run c (map EData (d :: rest))) = snd (data_received c (concat (d :: rest))).
+Proof. exact chunking_exact. Qed.
+Print Assumptions C15_framing_chunk_independent_exact.
+
+(* nothing is processed, written or dispatched after the endpoint closed the transport (own Abort, or
+   the peer's Release/Abort): within a data_received call the Close is the last output *)
+Theorem C15_nothing_after_close : forall c d, closed c = false -> bytes_ok (spool c) = true -> bytes_ok d = true ->
+  upto_close (snd (data_received c d)) = snd (data_received c d).
+Proof. exact data_received_close_last. Qed.
+Print Assumptions C15_nothing_after_close.
+
 (* the loop's fuel (spool length + 1) always suffices: more fuel changes nothing *)
 Theorem C15_loop_fuel_irrelevant : forall n n' c, bytes_ok (spool c) = true ->
   (length (spool c) < n)%nat -> (length (spool c) < n')%nat -> data_received_loop n c = data_received_loop n' c.
@@ -81,14 +96,14 @@ Theorem C15_empty_ignored : forall c m s, remote_settings c = Some s -> code m =
 Proof. exact empty_ignored. Qed.
 Print Assumptions C15_empty_ignored.
 
-Theorem C15_ping_pong : forall c m, code m = PING -> no_critical (opts m) = true -> blen (token m) <= 8 ->
+Theorem C15_ping_pong : forall c m, code m = PING -> has_critical (opts m) = false -> blen (token m) <= 8 ->
   process_signaling c m = (c, [Write ([blen (token m); PONG] ++ token m)], SOk).
 Proof. exact ping_pong. Qed.
 Print Assumptions C15_ping_pong.
 
-Theorem C15_release_abort_fail_requests : forall c m, code m = RELEASE \/ code m = ABORT -> no_critical (opts m) = true ->
+Theorem C15_release_abort_fail_requests : forall c m, code m = RELEASE \/ code m = ABORT -> has_critical (opts m) = false ->
   handle_message c m =
-  (set_closed c, [DispatchError (if code m =? RELEASE then PeerReleased else PeerAborted); Close], Continue).
+  (set_closed c, [DispatchError (if code m =? RELEASE then PeerReleased else PeerAborted); Close], Return).
 Proof. exact release_abort_close. Qed.
 Print Assumptions C15_release_abort_fail_requests.
 
@@ -119,18 +134,30 @@ Theorem C15_tkl_above_8_unparsable : forall f a t l, header f = Some (a, t, l) -
 Proof. exact tkl_above_8_unparsable. Qed.
 Print Assumptions C15_tkl_above_8_unparsable.
 
-Theorem C15_abort_on_critical_option : forall os c n v, In (n, v) os -> is_critical n = true ->
-  exists pre post, snd (fst (check_critical_options c os)) = pre ++ Write (abort_frame txt_unknown_critical_option) :: Close :: post.
-Proof. exact check_critical_aborts. Qed.
+(* an unknown critical option in Ping / Pong / Release / Abort: exactly Abort + close, the method returns
+   (no Pong, no release handling, nothing further from the spool) — unconditional *)
+Theorem C15_abort_on_critical_option : forall c m,
+  code m = PING \/ code m = PONG \/ code m = RELEASE \/ code m = ABORT -> has_critical (opts m) = true ->
+  handle_message c m = (set_closed c, [Write (abort_frame txt_unknown_critical_option); Close], Return).
+Proof. exact critical_option_aborts. Qed.
 Print Assumptions C15_abort_on_critical_option.
 
-(* unknown critical option in a CSM (numbers below 2^64, i.e. any that fit a frame): Abort carrying Bad-CSM-Option, then close *)
-Theorem C15_abort_on_critical_csm_option : forall os c st n v, In (n, v) os -> is_critical n = true ->
-  (forall n' v', In (n', v') os -> 0 <= n' < 2 ^ 64) ->
-  exists pre post b n1, snd (fst (process_csm_options c st os)) = pre ++ Write b :: Close :: post /\
-    is_critical n1 = true /\ serialize (abort_msg txt_option_not_supported (Some n1)) = Ok b.
-Proof. exact csm_critical_aborts. Qed.
+(* an unknown critical option in a CSM (numbers below 2^64, i.e. any that fits a frame): exactly one Abort
+   carrying Bad-CSM-Option, close, return *)
+Theorem C15_abort_on_critical_csm_option : forall c m n v, code m = CSM -> In (n, v) (opts m) -> is_critical n = true ->
+  (forall n' v', In (n', v') (opts m) -> 0 <= n' < 2 ^ 64) ->
+  exists c1 b n1, handle_message c m = (c1, [Write b; Close], Return) /\ closed c1 = true /\
+    remote_settings c1 <> None /\ is_critical n1 = true /\
+    serialize (abort_msg txt_option_not_supported (Some n1)) = Ok b.
+Proof. exact csm_critical_option_aborts. Qed.
 Print Assumptions C15_abort_on_critical_csm_option.
+
+(* a signalling code the endpoint does not know: Abort + close, return (behaviour of the code; the property text is silent) *)
+Theorem C15_abort_on_unknown_signalling_code : forall c m, is_signalling (code m) = true ->
+  code m <> CSM -> code m <> PING -> code m <> PONG -> code m <> RELEASE -> code m <> ABORT ->
+  handle_message c m = (set_closed c, [Write (abort_frame txt_unknown_signalling_code); Close], Return).
+Proof. exact unknown_signalling_code_aborts. Qed.
+Print Assumptions C15_abort_on_unknown_signalling_code.
 
 (* ---- non-vacuity *)
 Definition ex_get : msg := {| code := 1; token := [170; 187]; opts := [(11, [116; 101; 109; 112]); (12, []); (60, [1; 0])]; payload := [] |}.
@@ -152,8 +179,10 @@ Example C15_abort_frames :
   view_of 1048576 [9; 1; 0; 0; 0; 0; 0; 0; 0; 0; 0] = VFrame [9; 1; 0; 0; 0; 0; 0; 0; 0; 0; 0] [] /\
   header [240; 255; 255; 255; 255] = Some (6, 0, 65805 + 4294967295).
 Proof. vm_compute. repeat split; reflexivity. Qed.
-(* the behaviour recorded as an open finding: after its own Abort (critical option 1 in a CSM) the
-   endpoint goes on and dispatches the request that follows in the same segment *)
-Example C15_activity_after_own_abort_witness :
-  exists b, snd (data_received (init 1048576) [16; 225; 16; 0; 1]) = [Write b; Close; Request {| code := 1; token := []; opts := []; payload := [] |}].
+(* fixed finding (e207fa9): after its own Abort (critical option 1 in a CSM) the endpoint stops; the request
+   that follows in the same segment stays in the spool and is not dispatched *)
+Example C15_no_activity_after_own_abort :
+  exists b, data_received (init 1048576) [16; 225; 16; 0; 1] =
+    ({| spool := [0; 1]; remote_settings := Some {| max_message_size := None; block_wise_transfer := false |};
+        my_max_message_size := 1048576; closed := true |}, [Write b; Close]).
 Proof. eexists. vm_compute. reflexivity. Qed.
